@@ -347,6 +347,25 @@ pub fn run(run: &mut Run) -> PResult {
 
     // regression cases first
     super::regress::replay_dir(run, "C04", check_case)?;
+    {
+        // boundary hands, clean and with one defect in the last slot
+        let t = poker::tables();
+        let mut items: Vec<Vec<u32>> = Vec::new();
+        for v in [1u16, 10, 11, 166, 167, 322, 323, 1599, 1600, 1609, 1610, 2467, 2468, 3325, 3326, 6185, 6186, 7462] {
+            let five: Vec<u32> = t.rep[v as usize].iter().map(|c| card::BY_CI[*c as usize]).collect();
+            let extras: Vec<u32> = card::BY_CI.iter().copied().filter(|w| !five.contains(w)).take(2).collect();
+            for n in 2..=7usize {
+                let base: Vec<u32> = five.iter().copied().chain(extras.iter().copied()).take(n).collect();
+                items.push(base.clone());
+                for b in [0u32, u32::MAX, base[0] | card::PAIR, base[0]] {
+                    let mut w = base.clone();
+                    w[n - 1] = b;
+                    items.push(w);
+                }
+            }
+        }
+        disturbance_pass(run, &items, &|ws| check_hand(ws).map(|_| ()).map_err(|f| format!("{}: {}", f.0, f.1)), &|ws| ("C04.is_valid".into(), hand_json(ws), card::render_hand(ws)))?;
+    }
 
     // E1
     filter_scan(run, "C04.recogniser")?;
@@ -647,6 +666,9 @@ pub fn run(run: &mut Run) -> PResult {
 }
 
 pub fn check_case(clause: &str, case: &Value) -> Result<(), String> {
+    if clause.ends_with(".after_disturbance") {
+        return replay_after_disturbance(case, check_case);
+    }
     if clause == "C04.recogniser" {
         let w = engine::parse_word(&case["word"])?;
         let want = if card::is_card(w) { w } else { 0 };
